@@ -61,20 +61,26 @@ Log2Arg(e) ==
           D |-> IF e.exp >= 0 THEN One ELSE Pow(FromNat(e.base), -e.exp)]
     [] e.kind = "rbig" -> [cls |-> IF e.num.m = <<>> THEN "zero" ELSE "fin", N |-> e.num.m, D |-> e.den.m]
 
-\* <<why, undecided, checked>> for one group of forms
-Log2Group(arg, o) ==
+\* <<why, undecided, checked>> for one group of forms; en: enclosure of log2 |x| (used for finite non-zero x only)
+GroupBounds(o) == <<DecodeF32(o.out.v.lb), DecodeF32(o.out.v.ub)>>
+WellFormed(o) == o.out.k # "ok" \/ (IsField16(o.out.v.lb, 2) /\ IsField16(o.out.v.ub, 2))
+Log2Group(arg, en, o) ==
   IF o.out.k # "ok" THEN <<IF arg.cls \in {"zero", "nan"} THEN "" ELSE "unexpected-panic", 0, 0>>
-  ELSE IF ~(IsField16(o.out.v.lb, 2) /\ IsField16(o.out.v.ub, 2)) THEN <<"malformed-bounds", 0, 0>>
-  ELSE LET dl == DecodeF32(o.out.v.lb)
-           du == DecodeF32(o.out.v.ub)
+  ELSE IF ~WellFormed(o) THEN <<"malformed-bounds", 0, 0>>
+  ELSE LET dl == GroupBounds(o)[1]
+           du == GroupBounds(o)[2]
        IN CASE arg.cls = "nan" -> <<"", 0, 0>>
             [] arg.cls = "zero" -> <<IF dl.cls = "inf" /\ dl.neg = 1 /\ du.cls # "nan" THEN "" ELSE "log2-of-zero-not-minus-infinity", 0, 0>>
             [] arg.cls = "inf" -> <<IF du.cls = "inf" /\ du.neg = 0 /\ dl.cls # "nan" THEN "" ELSE "log2-of-infinity-not-infinity", 0, 0>>
-            [] OTHER -> LET r == Log2BoundsWhy(arg.N, arg.D, dl, du) IN <<r[1], r[2], 2>>
+            [] OTHER -> LET r == BoundsVsEncl(en, dl, du) IN <<r[1], r[2], 2>>
+\* one enclosure per event, precise enough for the finest bound reported by any form
 Log2Groups(arg, seq) ==
-  FoldLeft(LAMBDA acc, o : LET r == Log2Group(arg, o) IN
-                           <<IF acc[1] # "" THEN acc[1] ELSE r[1], acc[2] + r[2], acc[3] + r[3]>>,
-           <<"", 0, 0>>, seq)
+  LET J == FoldLeft(LAMBDA acc, o : IF o.out.k = "ok" /\ WellFormed(o)
+                                    THEN Max2(acc, EnclBits(GroupBounds(o)[1], GroupBounds(o)[2])) ELSE acc, 12, seq)
+      en == IF arg.cls = "fin" THEN Log2Encl(arg.N, arg.D, J) ELSE [k |-> 0, a |-> <<>>, j |-> 0, w |-> 0]
+  IN FoldLeft(LAMBDA acc, o : LET r == Log2Group(arg, en, o) IN
+                              <<IF acc[1] # "" THEN acc[1] ELSE r[1], acc[2] + r[2], acc[3] + r[3]>>,
+              <<"", 0, 0>>, seq)
 Log2Ev(e) ==
   IF e.kind = "rbig" /\ e.den.m = <<>> THEN <<"malformed-operand", 0, 0>>
   ELSE Log2Groups(Log2Arg(e), e.outs)
@@ -141,16 +147,20 @@ Ev(e) ==
     [] e.op = "prim" -> PrimEv(e)
     [] OTHER -> <<"unknown-op", 0, 0>>
 
-VARIABLES l, bad, und, chk
-Init == l = 1 /\ bad = <<>> /\ und = 0 /\ chk = 0
+(* TLC does not cache a LET bound at the level of an action (every reference re-evaluates it), it
+   does inside an expression: the whole accounting step is therefore one expression. *)
+Account(st, i) ==
+  LET r == Ev(Rec[i]) IN
+  [bad |-> IF r[1] = "" THEN st.bad ELSE Append(st.bad, [i |-> i, why |-> r[1]]),
+   und |-> st.und + r[2], chk |-> st.chk + r[3]]
+
+VARIABLES l, st
+Init == l = 1 /\ st = [bad |-> <<>>, und |-> 0, chk |-> 0]
 Next == /\ l <= Len(Rec)
-        /\ LET r == Ev(Rec[l]) IN
-             /\ bad' = IF r[1] = "" THEN bad ELSE Append(bad, [i |-> l, why |-> r[1]])
-             /\ und' = und + r[2]
-             /\ chk' = chk + r[3]
+        /\ st' = Account(st, l)
         /\ l' = l + 1
-Spec == Init /\ [][Next]_<<l, bad, und, chk>>
-Verdict == l > Len(Rec) => PrintT(<<"VERDICT", ToJson([total |-> Len(Rec), bad |-> bad, undecided |-> und, log2bounds |-> chk])>>)
+Spec == Init /\ [][Next]_<<l, st>>
+Verdict == l > Len(Rec) => PrintT(<<"VERDICT", ToJson([total |-> Len(Rec), bad |-> st.bad, undecided |-> st.und, log2bounds |-> st.chk])>>)
 Complete == IF TLCGet("stats").diameter - 1 = Len(Rec) THEN TRUE
             ELSE PrintT(<<"TRUNCATED", TLCGet("stats").diameter>>) /\ FALSE
 =============================================================================
